@@ -1,9 +1,12 @@
 package main
 
 import (
+	"archive/tar"
+	"bytes"
 	"encoding/json"
 	"fmt"
 	"os"
+	"path"
 	"sort"
 	"strconv"
 	"strings"
@@ -15,8 +18,8 @@ import (
 // destination. Generator: s_fuzz_gen.go. Arena job and clause oracles: job_fuzz.go.
 //
 //	clause      oracle
-//	returned    the arena job produced a result within the per-job timeout (15 s); a job that did not is re-run
-//	            alone in a fresh child with 45 s and reported ("hang") only if it again fails to return
+//	returned    the arena job produced a result within the per-job timeout (10 s); a job that did not is re-run
+//	            alone in a fresh child with 30 s and reported ("hang") only if it again fails to return
 //	no-panic    recover() around the call; a panic on a library goroutine kills the child ("died", confirmed by a re-run)
 //	bounded mem cumulative allocation during one call stays under 2 GiB (largest legitimate figure: 513 MiB, a zstd
 //	            frame declaring the decoder's maximum window); RLIMIT_AS of 8 GiB on the child turns a larger single
@@ -35,7 +38,7 @@ import (
 // dt = compression.Detect on every prefix.
 func init() { subcmds["fuzz"] = runFuzz }
 
-const fzPerJobTimeout = 15 * time.Second
+const fzPerJobTimeout = 10 * time.Second
 
 type fzPlan struct {
 	seed uint64
@@ -143,7 +146,7 @@ func runFuzz(cfg *Config) *Result {
 	if len(plans) < 64 {
 		rounds = 1
 	}
-	// a small first round is the canary: a regression that makes many calls hang costs 15 s per hung job
+	// a small first round is the canary: a regression that makes many calls hang costs the timeout per hung job
 	first := fzMinInt(256, len(plans)/8)
 	per := (len(plans) - first + rounds - 1) / rounds
 	for lo, hi := 0, 0; lo < len(plans); lo = hi {
@@ -278,7 +281,7 @@ func fzConfirm(cfg *Config, res *Result, plans []fzPlan, abnormal []int, kinds m
 		}
 		res.count("ep:" + c.EP)
 		if kind == "hang" {
-			res.problem(Problem{Kind: "oracle", Stream: "fuzz", Case: text, Impl: "hang",
+			res.problem(Problem{Kind: "oracle", Stream: "fuzz", Case: text, Impl: "hang", Sig: fzKnownSig(c, kind),
 				Msg: fmt.Sprintf("C19 returned: entry point %s did not return within %s, nor within %s on a second run (%s) (input: %s)", c.EP, fzPerJobTimeout, 3*fzPerJobTimeout, how, c.Desc)})
 			return
 		}
@@ -314,4 +317,45 @@ func fzConfirm(cfg *Config, res *Result, plans []fzPlan, abnormal []int, kinds m
 		res.Notes = append(res.Notes, fmt.Sprintf("%d further jobs without a result were not re-run (none of the 16 re-run ones repeated)", len(abnormal)-len(sample)))
 	}
 	return true
+}
+
+// fzSigWhiteoutOwnDir is the signature of a genuine finding made by this stream on /repo at eec6817 (residue of
+// D16, repaired since by 12fb974 "guard the directory os.RemoveAll will open"; kept so that a return is named): a layer with a fifo F (or a fifo F already in the destination) and a whiteout entry
+// F/x/.wh. or F/x/.wh.. — the whiteout's target is its own directory F/x. The guard in UnpackLayer stats
+// only that directory (ENOTDIR, so it does not fire); os.RemoveAll(F/x) then gets ENOTDIR from unlink and
+// opens the parent F: the open of a fifo without a writer never returns.
+const fzSigWhiteoutOwnDir = "C19-layer-whiteout-of-own-directory-beneath-fifo"
+
+// fzKnownSig recognises that finding from the case itself (never from the outcome text).
+func fzKnownSig(c *fzCase, kind string) string {
+	if kind != "hang" || !fzIsLayer(c.EP) {
+		return ""
+	}
+	stream, ok := c.Input, true
+	if fzAutoDecompress(c.EP) {
+		stream, ok = fzOwnDecompress(c.Input)
+	}
+	if !ok {
+		return ""
+	}
+	fifos := map[string]bool{}
+	for _, n := range c.Nodes {
+		if n.Kind == 'f' && strings.HasPrefix(n.Path, c.Dest+"/") {
+			fifos[strings.TrimPrefix(n.Path, c.Dest)] = true
+		}
+	}
+	tr := tar.NewReader(bytes.NewReader(stream))
+	for {
+		h, err := tr.Next()
+		if err != nil {
+			return ""
+		}
+		name := path.Clean("/" + h.Name)
+		if b := path.Base(name); (b == ".wh." || b == ".wh..") && fifos[path.Dir(path.Dir(name))] {
+			return fzSigWhiteoutOwnDir
+		}
+		if h.Typeflag == tar.TypeFifo {
+			fifos[name] = true
+		}
+	}
 }
